@@ -21,7 +21,7 @@ def plan(tier, seed):
 
 
 def run_shard(spec):
-    return L.run_rows(ID, spec, FAMILY)
+    return L.run_rows(ID, spec, FAMILY, product_cap=512 if spec['per_row'] < 1000 else None, pin_sp=True)
 
 
 def replay(data):
